@@ -79,8 +79,8 @@ def add_summaries(F):
     return must, may - must
 
 
-def r03a(rep, F, solves, must, may):
-    rep.rule('R03a', 'path-sensitive typestate over every solve(): a return whose PlannerStatus can be EXACT/APPROXIMATE is '
+def r03a(rep, F, solves, must, may, rule='R03a', frozen=38):
+    rep.rule(rule, 'path-sensitive typestate over every solve(): a return whose PlannerStatus can be EXACT/APPROXIMATE is '
                      'reached only after addSolutionPath (or a helper that registers on all its paths), and the status\' '
                      'approximate component equals the registered flag when both are decided; local verdict booleans, pointer '
                      'null-ness and smart-pointer truthiness are tracked, irrelevant variables sliced away. Frozen exceptions '
@@ -88,12 +88,12 @@ def r03a(rep, F, solves, must, may):
     n = 0
     for f in solves:
         if f.name in STATUS_EXCEPTIONS:
-            rep.undecided('R03a', f.name, 'status-vs-registration', STATUS_EXCEPTIONS[f.name])
+            rep.undecided(rule, f.name, 'status-vs-registration', STATUS_EXCEPTIONS[f.name])
             continue
         cl = P.StatusClient(f, must_add=must, may_add=may)
         paths.run_function(f, cl, F)
         if not cl.exits:
-            raise AnalysisBroken('R03a: no exit reached in ' + f.name)
+            raise AnalysisBroken(rule + ': no exit reached in ' + f.name)
         n += 1
         bad = None
         unk = 0
@@ -108,15 +108,15 @@ def r03a(rep, F, solves, must, may):
             if sol and added == 2 and isinstance(flag, bool) and ap is not None and flag != ap:
                 bad = bad or ('path registered with approximate=%s but the returned status says approximate=%s (line %d)' % (flag, ap, f.line(rid)), p, rid)
         if unk and bad is None:
-            raise AnalysisBroken('R03a: status of %s not decided on %d exit states (unrecognised idiom)' % (f.name, unk))
-        rep.add('R03a', f.name, 'status-vs-registration', bad is None, f.where(bad[2]) if bad else f.loc,
+            raise AnalysisBroken(rule + ': status of %s not decided on %d exit states (unrecognised idiom)' % (f.name, unk))
+        rep.add(rule, f.name, 'status-vs-registration', bad is None, f.where(bad[2]) if bad else f.loc,
                 bad[0] if bad else 'status and registration agree on %d exit states' % len(cl.exits), bad[1] if bad else None,
                 sample={'exit_states': len(cl.exits)})
-    rep.require_count('R03a', 'decided solve functions', n, 38)
+    rep.require_count(rule, 'decided solve functions', n, frozen)
 
 
-def r03b(rep, F, fns):
-    rep.rule('R03b', 'every loop that appends the extracted node list to the reported path (path->append(list[i]->state ...)) '
+def r03b(rep, F, fns, rule='R03b', frozen=25):
+    rep.rule(rule, 'every loop that appends the extracted node list to the reported path (path->append(list[i]->state ...)) '
                      'runs over all indices of the list, index 0 included, in linear normal form -- so the reported path is '
                      'never missing its first or last extracted node')
     n = 0
@@ -170,9 +170,9 @@ def r03b(rep, F, fns):
             else:
                 ok = st == {1: 0} and cond is not None and cond[0] == 'le0' and cd == {ix: 1, size: -1, '1': 1}
                 why = 'the loop does not run from 0 to size-1 (start %s, bound %s)' % (lin.show(start), lin.show(cond[1]) if cond else '?')
-            rep.add('R03b', f.name, 'assembly-loop:%s#%d' % (lst, f.line(lp)), ok, f.where(lp),
+            rep.add(rule, f.name, 'assembly-loop:%s#%d' % (lst, f.line(lp)), ok, f.where(lp),
                     'appends %s[i] for every i in the list' % lst if ok else why)
-    rep.require_count('R03b', 'path assembly loops', n, 25)
+    rep.require_count(rule, 'path assembly loops', n, frozen)
 
 
 def r03d(rep, F, fns):
